@@ -12,7 +12,7 @@ import (
 // matchPattern enumerates all matches of the pattern parts of one MATCH clause under relationship isomorphism: no
 // relationship is bound twice within the clause. yield returns false to stop.
 func (e *Evaluator) matchPattern(parts []*cypher.PatternPart, env Env, yield func(Env) bool) error {
-	used := map[int64]bool{}
+	used := map[int64]int{}
 	var rec func(i int, env Env) (bool, error)
 	rec = func(i int, env Env) (bool, error) {
 		if i == len(parts) {
@@ -24,7 +24,11 @@ func (e *Evaluator) matchPattern(parts []*cypher.PatternPart, env Env, yield fun
 		}
 		cont := true
 		var innerErr error
-		err := e.matchElements(part.PatternElements, env, used, func(m Env, p gm.Path) bool {
+		partUsed := used
+		if e.Dev.NoRelUniquenessAcrossPatternParts {
+			partUsed = map[int64]int{}
+		}
+		err := e.matchElements(part.PatternElements, env, partUsed, func(m Env, p gm.Path) bool {
 			next := m
 			if part.Variable != nil {
 				if prev, bound := env[part.Variable.Symbol]; bound {
@@ -159,7 +163,11 @@ func (e *Evaluator) hops(from int64, dir graph.Direction, fixed bool) []hop {
 
 // matchElements enumerates the matches of one path pattern. used is the set of relationships already bound in the
 // enclosing MATCH clause; it is extended while descending and restored on the way back.
-func (e *Evaluator) matchElements(elems []*cypher.PatternElement, env Env, used map[int64]bool, yield func(Env, gm.Path) bool) error {
+// used maps a bound relationship to its owner: fixedOwner for a fixed-length step, the element index for a
+// variable-length step.
+const fixedOwner = -1
+
+func (e *Evaluator) matchElements(elems []*cypher.PatternElement, env Env, used map[int64]int, yield func(Env, gm.Path) bool) error {
 	if len(elems) == 0 || len(elems)%2 == 0 {
 		return unknown("pattern with %d elements", len(elems))
 	}
@@ -214,11 +222,11 @@ func (e *Evaluator) matchElements(elems []*cypher.PatternElement, env Env, used 
 					boundEdge = &r.ID
 				}
 			}
-			for _, h := range e.hops(at, rp.Direction, true) {
+			for _, h := range e.hops(at, rp.Direction, i == 1) {
 				if stop {
 					return nil
 				}
-				if used[h.edge.ID] {
+				if _, taken := used[h.edge.ID]; taken {
 					continue
 				}
 				if boundEdge != nil && *boundEdge != h.edge.ID {
@@ -236,9 +244,20 @@ func (e *Evaluator) matchElements(elems []*cypher.PatternElement, env Env, used 
 					next = env.clone()
 					next[rp.Variable.Symbol] = gm.EdgeRef{ID: h.edge.ID}
 				}
-				used[h.edge.ID] = true
-				np2 := gm.Path{Nodes: append(append([]int64{}, path.Nodes...), h.to), Edges: append(append([]int64{}, path.Edges...), h.edge.ID)}
-				err = bindNode(h.to, next, np2)
+				used[h.edge.ID] = fixedOwner
+				targets := []int64{h.to}
+				if rp.Direction == graph.DirectionBoth && i > 1 && e.Dev.UndirectedContinuationReturnsBothEndpoints && h.edge.Start != h.edge.End {
+					targets = []int64{h.edge.Start, h.edge.End}
+				}
+				if rp.Direction == graph.DirectionBoth && i == 1 && e.Dev.RepeatedVariableUndirectedIgnoresFarEnd && np.Variable != nil && first.Variable != nil && np.Variable.Symbol == first.Variable.Symbol {
+					targets = []int64{at}
+				}
+				for _, to := range targets {
+					np2 := gm.Path{Nodes: append(append([]int64{}, path.Nodes...), to), Edges: append(append([]int64{}, path.Edges...), h.edge.ID)}
+					if err = bindNode(to, next, np2); err != nil {
+						break
+					}
+				}
 				delete(used, h.edge.ID)
 				if err != nil {
 					return err
@@ -264,14 +283,26 @@ func (e *Evaluator) matchElements(elems []*cypher.PatternElement, env Env, used 
 			if stop {
 				return nil
 			}
-			if depth >= min {
+			dropped := false
+			if depth > 1 && e.Dev.ExpansionStopsAfterSelfLoopAtEnd {
+				if last := e.edges[path.Edges[len(path.Edges)-1]]; last.Start == last.End {
+					dropped = true
+				}
+			}
+			if depth >= min && !dropped {
 				next := env
 				if rp.Variable != nil {
 					next = env.clone()
 					next[rp.Variable.Symbol] = append([]any{}, rels...)
 				}
-				if err := bindNode(cur, next, path); err != nil {
-					return err
+				times := 1
+				if e.Dev.ExactRangeRepeatedVariableCrossJoinsNodes && min == max && np.Variable != nil && first.Variable != nil && np.Variable.Symbol == first.Variable.Symbol && i == 1 {
+					times = len(e.G.Nodes)
+				}
+				for k := 0; k < times; k++ {
+					if err := bindNode(cur, next, path); err != nil {
+						return err
+					}
 				}
 			}
 			if depth >= max {
@@ -286,7 +317,8 @@ func (e *Evaluator) matchElements(elems []*cypher.PatternElement, env Env, used 
 				if stop {
 					return nil
 				}
-				if used[h.edge.ID] {
+				prevOwner, taken := used[h.edge.ID]
+				if taken && !(e.Dev.NoRelUniquenessBetweenExpansions && prevOwner != fixedOwner && prevOwner != i) {
 					continue
 				}
 				ok, err := e.edgeMatches(rp, h.edge, env)
@@ -296,10 +328,14 @@ func (e *Evaluator) matchElements(elems []*cypher.PatternElement, env Env, used 
 				if !ok {
 					continue
 				}
-				used[h.edge.ID] = true
+				used[h.edge.ID] = i
 				np2 := gm.Path{Nodes: append(append([]int64{}, path.Nodes...), h.to), Edges: append(append([]int64{}, path.Edges...), h.edge.ID)}
 				err = expand(h.to, depth+1, append(rels, gm.EdgeRef{ID: h.edge.ID}), np2)
-				delete(used, h.edge.ID)
+				if taken {
+					used[h.edge.ID] = prevOwner
+				} else {
+					delete(used, h.edge.ID)
+				}
 				if err != nil {
 					return err
 				}
